@@ -1,4 +1,5 @@
 import AriesVerif.C10.Model
+import AriesVerif.C10.Rot
 /-! C10 driver glue (format of harness/cmd/corr/c10.go). -/
 namespace Conn.Drv
 
@@ -48,7 +49,36 @@ def run (aip2 : Bool) : List (String × String) → List String → Option (List
     let rest ← run aip2 p' ops
     pure ((m, s) :: rest)
 
+/-- DID rotation cases (`rot,<style>|ops`, harness/cmd/corr/c10rot.go): exact prediction by `Conn.Rot.step` -/
+def rotRun (absIds : Bool) : List String → List String → Option (List String)
+  | _, [] => some []
+  | conns, op :: ops =>
+    let shown (ok : Bool) (c : List String) := (if ok then "ok" else "err") ++ "[" ++ ",".intercalate c ++ "]"
+    match op.splitOn " " with
+    | ["rot", signer, iss, sub, kidOf, env] =>
+      let r := Conn.Rot.step absIds conns ⟨signer, iss, sub, kidOf, env⟩
+      (rotRun absIds r.1 ops).map (shown r.2 r.1 :: ·)
+    | ["msg", env] => (rotRun absIds conns ops).map (shown (Conn.Rot.plain conns env) conns :: ·)
+    | _ => none
+
+def judgeRot (input impl : String) : String × String × String :=
+  match input.splitOn "|" with
+  | [cfg, opsS] =>
+    match rotRun (cfg.endsWith "abs") ["b", "m"] (opsS.splitOn ";") with
+    | none => ("bad-op", "bad-op", "")
+    | some outs =>
+      let exp := "|".intercalate outs
+      if exp == impl then ("=", "=", "")
+      else
+        -- first op whose outcome differs
+        let d := ((opsS.splitOn ";").zip (outs.zip (impl.splitOn "|"))).find? fun (_, (e, o)) => e != o
+        match d with
+        | some (op, (e, o)) => (exp, s!"{op}: expected {e}, got {o}", "")
+        | none => (exp, "outcome count differs", "")
+  | _ => ("bad-input", "bad-input", "")
+
 def judge (input impl : String) : String × String × String :=
+  if input.startsWith "rot," then judgeRot input impl else
   match input.splitOn "|" with
   | [cfg, opsS] =>
     match run (cfg.endsWith "aip2") [] (opsS.splitOn ";") with
